@@ -18,12 +18,12 @@ PROPS["C09"] = dict(
     ],
     level_text="Coq theorems on the crash/restart model (coq/Model/SnapCrash.v on top of Model/Snap.v): restart outcome and restored state for EVERY "
                "durable image and every restore-failure script and configuration; survival of acknowledged snapshots at every crash point of every call "
-               "after every history, and of their directories (every snapshot in an image's metadata has its directory, Close excepted for remote ones); no garbage after one successful Cleanup (partial: Cleanup fails on a never-initialised database, refuted witness). "
+               "after every history, and of their directories (every snapshot in an image's metadata has its directory, Close excepted for remote ones); one Cleanup after restart always succeeds and leaves exactly the directories of the snapshots (full strength since fix C09-fix-1); restored mounts unique; "
+               "every snapshot of the restarted snapshotter removable, every committed one usable as a parent. "
                "The model is run against snapshot.NewSnapshotter on copied crash images every run.",
     level_note="Model is hand-written; crash points are the markers added to snapshot.go; bolt crash atomicity assumed; readdir order of cleanups is an "
-               "input (any permutation); 'usable or removable' after restart is covered by the C08 theorems applied to the restarted state only through the "
-               "correspondence run (post-crash calls), not by a separate theorem; exactly-once of the restored mounts is stated as membership (one entry per recorded "
-               "remote snapshot), uniqueness of ids in images is not proved.",
+               "input (any permutation); 'usable as a parent' is proved for the state after the one Cleanup (before it, the first Prepare may collide once with an orphan "
+               "directory: model + harness only).",
     technique="Coq proof by induction over the restore fold and case analysis over the crash points; correspondence by vm_compute on observed crash images",
     trusted=["snapshot/snapshot.go restoreRemoteSnapshot/createSnapshot/Remove/cleanup and containerd snapshots/storage are modelled by hand in "
              "coq/Model/SnapCrash.v + coq/Model/Snap.v; tie = markers hit (number, code), restart result, restore Mount calls with labels, Walk / snapshots/ "
